@@ -64,7 +64,7 @@ func healthyIdP(e *harness.AuthEnv, email string) {
 func c07URIs(thorough bool) []string {
 	schemes := []string{"https://", "http://", "HTTPS://", "javascript://", "", "//"}
 	users := []string{"", "app.sso.test@", "x:y@"}
-	hosts := []string{"sso.test", "app.sso.test", "evil.test", "sso.test.evil.test", "evilsso.test", "APP.SSO.TEST", "app.sso.test.", "app.sso.test:443", "[::1]", "",
+	hosts := []string{"sso.test", "app.sso.test", "evil.test", "sso.test.evil.test", "evilsso.test", "app.ssoxtest", "sso-test", "APP.SSO.TEST", "app.sso.test.", "app.sso.test:443", "[::1]", "",
 		"evil.test%2f.sso.test", "evil.test\\.sso.test", "evil.test\t.sso.test", "evil.test#.sso.test", "evil.test?.sso.test"}
 	tails := []string{"/oauth2/callback", "/cb?next=//evil.test", "/#@evil.test", "/@evil.test"}
 	if !thorough {
@@ -270,7 +270,7 @@ func uriClass(u string) string {
 		return "userinfo"
 	case strings.Contains(u, "\\") || strings.Contains(u, "\t") || strings.Contains(u, "%2f"):
 		return "odd-characters-in-host"
-	case strings.Contains(l, "evilsso.test") || strings.Contains(l, "sso.test.evil.test"):
+	case strings.Contains(l, "evilsso.test") || strings.Contains(l, "sso.test.evil.test") || strings.Contains(l, "ssoxtest") || strings.Contains(l, "sso-test"):
 		return "lookalike-host"
 	case strings.Contains(l, "evil.test#") || strings.Contains(l, "evil.test?"):
 		return "authority-terminator"
@@ -286,7 +286,7 @@ func init() {
 	fw.Register(&fw.Check{
 		ID:    "C07",
 		Level: "exploration",
-		Rule: "full product on the unmodified NewAuthenticatorMux (Okta provider against a scripted IdP over TLS): URI grammar = scheme {https, http, HTTPS, javascript, none, //} x userinfo {none, in-domain-looking@ (thorough: x:y@)} x host {root, sub.root, other, root as prefix of another domain, look-alike suffix, upper case, trailing dot, with port, IPv6, empty, %2f / backslash / TAB / # / ? inside} x tail {path, query naming another authority (thorough: fragment and path with @)}; " +
+		Rule: "full product on the unmodified NewAuthenticatorMux (Okta provider against a scripted IdP over TLS): URI grammar = scheme {https, http, HTTPS, javascript, none, //} x userinfo {none, in-domain-looking@ (thorough: x:y@)} x host {root, sub.root, other, root as prefix of another domain, look-alike suffix, root with its dot replaced by another character, upper case, trailing dot, with port, IPv6, empty, %2f / backslash / TAB / # / ? inside} x tail {path, query naming another authority (thorough: fragment and path with @)}; " +
 			"root-domain lists {[sso.test], [.sso.test, other.test]}; signature {valid, valid for another URI, wrong secret, missing, not base64}; ts via the virtual clock {now, -301 s, +1 h, missing (thorough: -299 s, non-numeric)}; " +
 			"endpoints: sign_in with/without authenticator cookie, sign_out GET/POST with/without cookie, start with the URI as nested proxy URI and as outer return URI, callback with the URI carried in state. " +
 			"Oracle: every 3xx Location other than the IdP's resolves inside the root domains under both an RFC 3986 and a browser-style reading; a code-carrying redirect, a sign-in/sign-out redirect and the start of an IdP login happen only if an independent HMAC-SHA256 recomputation accepts (uri, sig, ts) with ts <= 300 s old; " +
